@@ -155,11 +155,13 @@ CLAIMED['C07'] = ('model_checking',
     '<= 4 items plus a seeded sample) are printed as LaTeX with marker words and parsed by the real engine: per word the chain of containers '
     '(kind + ordinal, paragraphs transparent) and the depth-first word order are compared, and on every real tree: parent links, sections '
     'containing only paragraphs and deeper sections, no paragraph directly in a paragraph, quote/dash substitution in text but not in \\verb or '
-    'math.  thorough additionally checks the tree clauses on the repository\'s own sample documents.',
+    'math.  Paragraphs.tla transcribes Macro.paragraphs (machine) against the cutting rule (MachineIsRule, EveryWordInOneParagraph, '
+    'NoEmptyParagraph, BlockAlone) for every content sequence of <= 6 / 7 items over {word, blank, \\par, block element, section-level element} '
+    'x force; each is rebuilt from real nodes and grouped by the real paragraphs().  thorough additionally checks the tree clauses on the '
+    'repository\'s own sample documents.',
     'DESIGN.md#c07',
-    'Trusted: TLC, the grammar/intended-container rule of Digest.tla, the concretiser. Paragraph grouping itself is not modelled in TLA+ '
-    '(paragraph clauses are checked by the harness on real trees); constructs outside the grammar (tables, floats, math environments) are '
-    'covered by C10/C11.',
+    'Trusted: TLC, the grammar/intended-container rule of Digest.tla, the cutting rule of Paragraphs.tla, the concretiser. Constructs outside '
+    'the grammar (tables, floats, math environments) are covered by C10/C11.',
     TECH)
 CLAIMED['C10'] = ('model_checking',
     'Arrays.tla: for six column specifications (bars, p{}, @{} also leading, *{n}{} repetitions) TLC generates every table whose first row '
